@@ -2354,11 +2354,11 @@ AFTER_FIX = [
          "            with util.safe_reraise():\n                self.finalize_callback.clear()\n                self.invalidate(e=err)\n"
          "                pool._return_conn(self)\n"), None),
     # ---- benign, _finalize_fairy
-    ("benign-r7-finalize-fairy-checkin-in-finally", POOL,
-     chain(sub(_R7_FINALIZE_FIXED, "                raise\n"),
-           sub("                pool.logger.error(message)\n                util.warn(message)\n",
-               "                pool.logger.error(message)\n                util.warn(message)\n"
-               "            if connection_record and connection_record.fairy_ref is not None:\n                connection_record.checkin()\n")), None),
+    ("benign-r7-finalize-fairy-checkin-helper-before-reraise", POOL,
+     chain(sub(_R7_FINALIZE_FIXED, "                _checkin_if_owned(connection_record)\n                raise\n"),
+           sub("def _finalize_fairy(\n",
+               "def _checkin_if_owned(rec: Optional[_ConnectionRecord]) -> None:\n    if rec and rec.fairy_ref is not None:\n"
+               "        rec.checkin()\n\n\ndef _finalize_fairy(\n")), None),
     ("benign-r7-finalize-fairy-still-out-flag-local", POOL,
      sub("                if (\n                    connection_record\n                    and connection_record.fairy_ref is not None\n                ):\n"
          "                    connection_record.checkin()\n                raise\n",
